@@ -7,11 +7,12 @@ import pipeline
 import talgen
 
 PID = 'C06'
-PROOF_MODULES = ['ChamProofs.Props.C06', 'ChamProofs.Ties', 'ChamProofs.Props.C06Regex', 'ChamProofs.Props.C06Loop']
+PROOF_MODULES = ['ChamProofs.Props.C06', 'ChamProofs.Ties', 'ChamProofs.Props.C06Regex', 'ChamProofs.Props.C06Loop', 'ChamProofs.Props.C06Parts']
 THEOREMS = ['ChamVerif.undouble_no_dollar', 'ChamVerif.undouble_pair', 'ChamVerif.scan_append', 'ChamVerif.C06_own_brace',
             'ChamVerif.tie_builder_defaults', 'ChamVerif.C06Loop.tie_bracesReq', 'ChamVerif.C06Loop.star_any', 'ChamVerif.C06Loop.matchAt_shape',
             'ChamVerif.C06Loop.search_braces', 'ChamVerif.C06Loop.search_no_dollar', 'ChamVerif.C06Loop.candidate_round',
-            'ChamVerif.C06Loop.C06_candidate_own_brace', 'ChamVerif.C06Loop.C06_interp_step']
+            'ChamVerif.C06Loop.C06_candidate_own_brace', 'ChamVerif.C06Loop.C06_interp_step',
+            'ChamVerif.C06Parts.C06_parts_text_lit', 'ChamVerif.C06Parts.C06_parts_text_expr']
 LEVEL_TEXT = ('Proved in Lean: the bracket/quote scanner the model uses to reject candidates is compositional (scan_append) and therefore an '
               'expression with balanced brackets and closed string literals followed by "}" and anything else is certainly invalid '
               '(C06_own_brace): among the candidates "${ e } … }" none longer than the one ending at the expression\'s own closing brace can be '
@@ -24,7 +25,7 @@ LEVEL_TEXT = ('Proved in Lean: the bracket/quote scanner the model uses to rejec
               'every e and every post — whatever braces they contain —, if the longer candidates are rejected with an ExpressionError and e compiles, '
               'the loop returns exactly e and consumes exactly "${e}" (C06_candidate_own_brace, induction over the "}" of post; non-vacuous: the '
               'premises are kernel-evaluated for a concrete text on the regenerated regexes), and compileInterp yields the literal, the expression part '
-              'and the parts of post (C06_interp_step). Still by correspondence only: the optional-braces regex ($name), entity decoding inside '
+              'and the parts of post (C06_interp_step); rendering the parts copies a literal and replaces an expression part by the converted value of exactly that expression, in order (C06_parts_text_lit / _expr). Still by correspondence only: the optional-braces regex ($name), entity decoding inside '
               'expressions, the parity rule for a run of "$" before "${", and the premise "longer candidates are rejected" for the Python grammar '
               '(ast.parse is the judge there; differential-tested every run). A constructive oracle builds texts from part lists in every '
               'interpolation context and under every on/off switch.')
@@ -286,6 +287,16 @@ def oracle(ctx):
     ctx.cov['context_histogram'] = hist
     ctx.counters['nontrivial'] = len(nt)
     ctx.sample({'template': cases[0][0]['src'], 'expected': cases[0][1]})
+    # named and numeric character references inside an expression are decoded before it is evaluated (D-06b, fixed: &xi; was not)
+    ENT = [("'&xi;'", '\u03be'), ("'&Xi;'", '\u039e'), ("'&pi;'", '\u03c0'), ("'&#x41;'", 'A'), ("'&#65;'", 'A'), ("'&#x4A;'", 'J'), ("'&eacute;'", '\u00e9'),
+           ("'&x41;'", '&amp;x41;'), ("'&xyz;'", '&amp;xyz;'), ("'&nosuch;'", '&amp;nosuch;'), ("len('&lt;&gt;&amp;')", '3')]
+    for e, want in ENT:
+        for src, exp in (('<p>${%s}</p>' % e, '<p>%s</p>' % want), ('<p a="${%s}">t</p>' % e, '<p a="%s">t</p>' % want)):
+            ctx.count('evaluations')
+            r = pipeline.run_impl({'src': src, 'vars': []})
+            if r.get('out') != exp:
+                ctx.violation('character entities inside an expression are decoded before evaluation (and nothing else is)', {'src': src, 'vars': []},
+                              expected=exp, actual=r)
     # D-06a
     r = pipeline.run_impl({'src': '<p a="$$">$$</p>', 'vars': []})
     if r.get('out') != '<p a="$">$</p>':
